@@ -4,3 +4,4 @@ import PintModel.Model.Load
 import PintModel.Gen.DefaultRegistry
 import PintModel.DriverOps
 import PintModel.Model.Quantity
+import PintModel.Model.Pi
